@@ -43,7 +43,7 @@ std::vector<std::string> split(const std::string& s, char sep) {
    out.push_back(cur); return out;
 }
 long to_long(const std::string& s) { long v = 0; bool neg = false; for (char c : s) { if (c == '-') neg = true; else v = v * 10 + (c - '0'); } return neg ? -v : v; }
-long slot_int(const Slot& s) { long v = 0; for (int i = 0; i < s.len; ++i) v = v * 10 + (s.b[i] - '0'); return v; }
+long slot_int(const Slot& s) { long v = 0; for (int i = (s.kind == 'i' ? 1 : 0); i < s.len; ++i) v = v * 10 + (s.b[i] - '0'); return s.kind == 'i' ? -v : v; }
 void parse(Tmpl& t) {
    auto lines = split(std::string(pa_tmpl), '\n');
    auto head = split(lines[0], ';');
@@ -58,7 +58,8 @@ void parse(Tmpl& t) {
          vs_sym(s.b, s.len, "val");
          for (int i = 0; i < s.len; ++i) {
             unsigned char c = s.b[i];
-            if (s.kind == 'a') vs_assume((c >= 'a' && c <= 'z') || (c >= 'A' && c <= 'Z'));
+            if (s.kind == 'i' && i == 0) vs_assume(c == '-');
+            else if (s.kind == 'a') vs_assume((c >= 'a' && c <= 'z') || (c >= 'A' && c <= 'Z'));
             else if (s.kind == 's') vs_assume(c > ' ' && c < 127 && c != '-' && c != '=' && c != ',' && c != '!' && c != '[' && c != ']' && c != ';' && c != '"' && c != '\'' && c != '\\' && c != '#');
             else if (s.kind == 'b') vs_assume(c != 0);
             else vs_assume(c >= '0' && c <= '9');
@@ -100,6 +101,7 @@ struct Dest {
    int arr[3] = {0, 0, 0};
    std::array<int, 3> sa{{0, 0, 0}};
    std::bitset<8> bs;
+   std::vector<bool> vb;
    int n0, m0, l0, u0, d10, d20;
    Dest() : f(false), g(false), x(false), y(false), r(false), a(false), b(false), p(false), q(false) {
       n0 = n = (int) vs_u32("init"); m0 = m = (int) vs_u32("init"); l0 = l = (int) vs_u32("init"); u0 = u = (int) vs_u32("init");
@@ -143,12 +145,17 @@ void setup(Handler& ah, Dest& d, int cfg, int part /* 0 = all, 1/2 = halves for 
       if (in(1)) { ah.addArgument("a", DEST_VAR(d.a), "a")->addConstraint(requiresArg("c")); ah.addArgument("b", DEST_VAR(d.b), "b")->addConstraint(excludes("c"));
                    ah.addArgument("c", DEST_VAR(d.f), "c"); ah.addArgument("x,extra", DEST_VAR(d.x), "x")->addConstraint(requiresArg("c;a"))->addConstraint(excludes("b")); }
       if (in(2)) { ah.addArgument("g,gflag", DEST_VAR(d.g), "g"); }
+   } else if (cfg == 10) {
+      if (in(1)) { ah.addArgument("l,list", DEST_VAR(d.v), "list")->setTakesMultiValue(); ah.addArgument("s,name", DEST_VAR(d.s), "name"); ah.addConstraint(one_of("l;name")); }
+      if (in(2)) { ah.addArgument("n,number", DEST_VAR(d.n), "number"); ah.addArgument("f,flag", DEST_VAR(d.f), "flag"); ah.addArgument("-", DEST_VAR(d.fv), "free values"); }
    } else if (cfg == 4) {
       ah.addArgument("a", DEST_VAR(d.a), "a"); ah.addArgument("b", DEST_VAR(d.b), "b"); ah.addArgument("n,number", DEST_VAR(d.n), "number");
       ah.addConstraint(one_of("a;b"));
    } else if (cfg == 6) {
       // containers.  opt bits (global pa_opt): 1 clear-before-assign, 2 sort, 4 unique, 8 unique+errors, 16 list separator ';', 32 multi-value
+      if (part == 2) goto cfg6_second;
       d.v.push_back(7);
+      {
       auto* a = ah.addArgument("v,values", DEST_VAR(d.v), "values");
       if (pa_opt & 1) a->setClearBeforeAssign();
       if (pa_opt & 2) a->setSortData();
@@ -156,10 +163,22 @@ void setup(Handler& ah, Dest& d, int cfg, int part /* 0 = all, 1/2 = halves for 
       if (pa_opt & 8) a->setUniqueData(true);
       if (pa_opt & 16) a->setListSep(';');
       if (pa_opt & 32) a->setTakesMultiValue();
+      // the same options on a container WITHOUT previous content
+      auto* e = ah.addArgument("e,empty", DEST_VAR(d.c), "values, initially empty");
+      if (pa_opt & 1) e->setClearBeforeAssign();
+      if (pa_opt & 2) e->setSortData();
+      if (pa_opt & 4) e->setUniqueData(false);
+      if (pa_opt & 8) e->setUniqueData(true);
+      if (pa_opt & 16) e->setListSep(';');
+      if (pa_opt & 32) e->setTakesMultiValue();
+      }
+      if (part == 1) return;
+   cfg6_second:
       ah.addArgument("t,set", DEST_VAR(d.st), "set");
       ah.addArgument("a,arr", DEST_VAR(d.arr), "array");
       ah.addArgument("y,stdarr", DEST_VAR(d.sa), "std::array");
       ah.addArgument("b,bits", DEST_VAR(d.bs), "bitset");
+      ah.addArgument("z,vbool", DEST_VAR(d.vb), "vector<bool>");
       ah.addArgument("f,flag", DEST_VAR(d.f), "flag");
       if (pa_opt & 64) ah.addArgument("-", DEST_VAR(d.fv), "free values");
    } else if (cfg == 5) {
@@ -215,6 +234,7 @@ void check_dests(const Tmpl& t, const Dest& d) {
       else if (k == "st") check_vec(t, e, std::vector<int>(d.st.begin(), d.st.end()), "destination st (set)");
       else if (k == "arr") check_vec(t, e, std::vector<int>(d.arr, d.arr + 3), "destination arr (int[3])");
       else if (k == "sa") check_vec(t, e, std::vector<int>(d.sa.begin(), d.sa.end()), "destination sa (std::array)");
+      else if (k == "vb") { for (auto& part : split(e, ',')) { long pos = part[0] == '#' ? slot_int(t.slots[part[1] - '0']) : to_long(part); vs_assert((long) d.vb.size() > pos, "destination vb (vector<bool>) grew to hold the position"); if ((long) d.vb.size() > pos) vs_assert(d.vb[pos], "destination vb (vector<bool>) has the position set"); } }
       else if (k == "bs") check_int(t, e, (int) d.bs.to_ulong(), 0, "destination bs (bitset)");
    }
 }
@@ -256,6 +276,7 @@ HX void hx_pa_string(uint64_t cfg, uint64_t flags) {
 HX void hx_pa_group(uint64_t cfg, uint64_t flags) {
    Tmpl t; parse(t);
    Dest d;
+   pa_opt = (unsigned) (flags >> 8);
    int rc = guarded([&] {
       auto h1 = Groups::instance().getArgHandler("first", 0);
       auto h2 = Groups::instance().getArgHandler("second", 0);
@@ -375,10 +396,18 @@ HX void hx_pa_group_dup(uint64_t mode, uint64_t) {
    int rc = guarded([&] {
       auto h1 = Groups::instance().getArgHandler("first", 0);
       auto h2 = Groups::instance().getArgHandler("second", 0);
+      if (mode >= 3) {
+         // the later-created handler defines the key first, then the earlier-created one re-defines it
+         auto h3 = Groups::instance().getArgHandler("third", 0);
+         if (mode == 3) { h3->addArgument("k,key", DEST_VAR(x), "x"); h1->addArgument("k", DEST_VAR(y), "y"); }
+         else if (mode == 4) { h2->addArgument("k,key", DEST_VAR(x), "x"); h1->addArgument("key", DEST_VAR(y), "y"); }
+         else { h3->addArgument("key", DEST_VAR(x), "x"); h2->addArgument("q,key", DEST_VAR(y), "y"); }
+      } else
       h1->addArgument("n,number", DEST_VAR(x), "x");
-      if (mode == 0) h2->addArgument("n", DEST_VAR(y), "y");
+      if (mode >= 3) { }
+      else if (mode == 0) h2->addArgument("n", DEST_VAR(y), "y");
       else if (mode == 1) h2->addArgument("number", DEST_VAR(y), "y");
-      else h2->addArgument("m,mumber", DEST_VAR(y), "y");
+      else if (mode == 2) h2->addArgument("m,mumber", DEST_VAR(y), "y");
       char a0[] = "prog"; char* argv[] = {a0, nullptr};
       Groups::instance().evalArguments(1, argv);
    });
